@@ -3,7 +3,7 @@
 From NV Require Import Base.Bytes.
 Open Scope N_scope.
 
-Inductive rerr := EEOF | EUnexpected.
+Inductive rerr := EEOF | EUnexpected | ECorrupt.   (* ECorrupt: data behind the end marker (file.go ReadItem) *)
 
 Inductive dec :=
 | DItem (bs : list N) (ck : N) (rest : list N)
@@ -61,7 +61,8 @@ Fixpoint read_all_fuel (fuel : nat) (ver : N) (s : list N) (acc : list (list N))
   | S f =>
     match decode_item ver s with
     | DItem bs c rest => read_all_fuel f ver rest (bs :: acc) (N.lxor ck c)
-    | DTerm _ => (rev acc, ck, RTerm)
+    | DTerm [] => (rev acc, ck, RTerm)
+    | DTerm (_ :: _) => (rev acc, ck, RErr ECorrupt)   (* the end marker must be the last thing in the file *)
     | DErr e c => (rev acc, N.lxor ck c, RErr e)
     end
   end.
